@@ -16,14 +16,21 @@
     `write_length = 16`) are a parameter `Cfg`, generated from the source (Gen/Loops10.lean).
   * the FRU *parsers* are not part of this model except `InventoryCommonHeader` (its fields
     steer the transfer); the area readers return the bytes handed to the parser.
-  * `get_fru_multirecord_area` exists in two variants: `shipped = true` mirrors the pinned
-    source (the inner `read_fru_data` calls do not pass `fru_id`, i.e. use the default 0);
-    `shipped = false` is the intended behaviour.
-  * `_read_fru_area` exists in two variants: `lenChk = false` mirrors the pinned source (an area
-    length byte 0 makes the second `read_fru_data` a read of 0 bytes: no request, `b''` is handed
-    to the parser); `lenChk = true` is the source after fixes/C15-2.diff (`if count == 0: raise
-    DecodingError` behind the 5-byte read, no second read).  The harness PROBES which one the tree
-    under test has.
+  * `get_fru_multirecord_area` exists in two variants: `Var.mrShipped = true` mirrors the source before
+    fixes/C10-1.diff (the inner `read_fru_data` calls do not pass `fru_id`, i.e. use the default 0);
+    `false` is the intended behaviour.
+  * `_read_fru_area` exists in two variants: `Var.lenChk = false` mirrors the source before fixes/C15-2.diff (an
+    area length byte 0 makes the second `read_fru_data` a read of 0 bytes: no request, `b''` is handed
+    to the parser); `true`: `if count == 0: raise DecodingError` behind the 5-byte read, no second read.
+  * `read_fru_data(offset=None, count=None)` exists in two variants (`Var.rangeFix`): `false` mirrors the
+    pinned source (the whole inventory is read whenever `offset is None` - a `count` given alone is dropped -
+    and `offset + None` is a TypeError before any request); `true` is the source after fixes/C10-2.diff
+    (`off = offset or 0`; the area size is asked for only when `count is None`).
+  * the four area getters exist in two variants each (`Var.absC/absB/absP/absM`): `false` mirrors the pinned
+    source (the `None` offset of an area the common header declares ABSENT is passed on to `_read_fru_area` /
+    the record walk unchecked, which with `rangeFix = false` reads the whole inventory); `true` is the source
+    after fixes/C10-2.diff (`if not header.x_area_offset: return None` behind the header read).  All flags are
+    PROBED by the harness on the tree under test (`Var`).
 -/
 import PyIpmi.Base.Outcome
 import PyIpmi.Base.Bytes
@@ -154,6 +161,49 @@ def readFruData {σ} (cfg : Cfg) (send : Send σ) (w : World σ) (offset : Optio
 def readFruDataFull {σ} (cfg : Cfg) (send : Send σ) (w : World σ) (id : Nat) : Res σ (List Nat) :=
   readFruData cfg send w none 0 id
 
+/-- Variant flags of the model, probed by the harness on the tree under test. -/
+structure Var where
+  mrShipped : Bool      -- get_fru_multirecord_area: the inner reads use FRU 0 (before fixes/C10-1.diff)
+  lenChk : Bool         -- _read_fru_area rejects an area length byte 0 (fixes/C15-2.diff)
+  rangeFix : Bool       -- read_fru_data: `off = offset or 0`, whole-area size only when `count is None` (fixes/C10-2.diff)
+  absC : Bool           -- get_fru_chassis_area returns None for an absent area (fixes/C10-2.diff)
+  absB : Bool           -- get_fru_board_area …
+  absP : Bool           -- get_fru_product_area …
+  absM : Bool           -- get_fru_multirecord_area …
+  deriving Repr, DecidableEq, Inhabited
+
+/-- the behaviour the property asks for (`lenChk` is C15's business and stays a parameter) -/
+def Var.intended (lenChk : Bool) : Var := ⟨false, lenChk, true, true, true, true, true⟩
+
+/-- pyipmi/fru.py as pinned (with fixes/C10-1.diff and fixes/C15-2.diff, without fixes/C10-2.diff) -/
+def Var.pinned : Var := ⟨false, true, false, false, false, false, false⟩
+
+/-- `read_fru_data(offset=None, count=None, fru_id=0)` as pinned: `if offset is None: <whole inventory>
+else: area_size = offset + count` (a count given alone is dropped; an offset given alone is `int + None`,
+a TypeError before any request). -/
+def readFruDataPinned {σ} (cfg : Cfg) (send : Send σ) (w : World σ) :
+    Option Nat → Option Nat → Nat → Res σ (List Nat)
+  | none, _, id => readFruData cfg send w none 0 id
+  | some _, none, _ => ⟨w, .pyError "TypeError"⟩
+  | some off, some c, id => readFruData cfg send w (some off) c id
+
+/-- … after fixes/C10-2.diff: `off = offset or 0; if count is None: area_size = <Get FRU Inventory Area
+Info> else: area_size = off + count`. -/
+def readFruDataFixed {σ} (cfg : Cfg) (send : Send σ) (w : World σ) (offset : Option Nat) :
+    Option Nat → Nat → Res σ (List Nat)
+  | some c, id => readFruData cfg send w (some (offset.getD 0)) c id
+  | none, id =>
+    let r := areaInfo send w id
+    match r.out with
+    | .ok size => readLoop cfg send (size + cfg.initReq + 1) r.w id size (offset.getD 0) cfg.initReq []
+    | e => ⟨r.w, castErr e⟩
+
+/-- `read_fru_data` with BOTH range arguments optional, in the variant the harness probed. -/
+def readFruDataV {σ} (rangeFix : Bool) (cfg : Cfg) (send : Send σ) (w : World σ) (offset count : Option Nat)
+    (id : Nat) : Res σ (List Nat) :=
+  if rangeFix then readFruDataFixed cfg send w offset count id
+  else readFruDataPinned cfg send w offset count id
+
 /-! ### write_fru_data -/
 
 /-- `utils.chunks(data, n)` for `n ≥ 1` (`range(0, len(data), n)`); fuel = `len(data)`. -/
@@ -207,16 +257,16 @@ def getHeader {σ} (cfg : Cfg) (send : Send σ) (w : World σ) (id : Nat) : Res 
 
 /-- `_read_fru_area(offset, fru_id)`: 5 header bytes, then `data[1] * 8` bytes
 (`lenChk`: `if count == 0: raise DecodingError` in between). -/
-def readFruArea {σ} (cfg : Cfg) (send : Send σ) (lenChk : Bool) (w : World σ) (offset : Option Nat)
+def readFruArea {σ} (cfg : Cfg) (send : Send σ) (v : Var) (w : World σ) (offset : Option Nat)
     (id : Nat) : Res σ (List Nat) :=
-  let r := readFruData cfg send w offset 5 id
+  let r := readFruDataV v.rangeFix cfg send w offset (some 5) id
   match r.out with
   | .ok data =>
     match data[1]? with
     | none => ⟨r.w, .pyError "IndexError"⟩
     | some b =>
-      if lenChk && b * 8 == 0 then ⟨r.w, .decodingError⟩
-      else readFruData cfg send r.w offset (b * 8) id
+      if v.lenChk && b * 8 == 0 then ⟨r.w, .decodingError⟩
+      else readFruDataV v.rangeFix cfg send r.w offset (some (b * 8)) id
   | e => ⟨r.w, e⟩
 
 inductive Area where
@@ -228,22 +278,36 @@ def Header.area (h : Header) : Area → Option Nat
   | .board => h.board
   | .product => h.product
 
+/-- does the getter of info area `a` return `None` for an area the header declares absent? -/
+def Var.abs (v : Var) : Area → Bool
+  | .chassis => v.absC
+  | .board => v.absB
+  | .product => v.absP
+
+/-- `x` as the getter's result (`some` = an area object built from these bytes). -/
+def someRes {σ} (r : Res σ (List Nat)) : Res σ (Option (List Nat)) :=
+  match r.out with
+  | .ok d => ⟨r.w, .ok (some d)⟩
+  | e => ⟨r.w, castErr e⟩
+
 /-- `get_fru_chassis_area` / `get_fru_board_area` / `get_fru_product_area`: the bytes handed to
-the area parser. -/
-def getInfoArea {σ} (cfg : Cfg) (send : Send σ) (lenChk : Bool) (w : World σ) (a : Area) (id : Nat) :
-    Res σ (List Nat) :=
+the area parser; `none` = the getter returns `None` (`v.abs a`: `if not header.x_area_offset: return None`). -/
+def getInfoArea {σ} (cfg : Cfg) (send : Send σ) (v : Var) (w : World σ) (a : Area) (id : Nat) :
+    Res σ (Option (List Nat)) :=
   let h := getHeader cfg send w id
   match h.out with
-  | .ok hd => readFruArea cfg send lenChk h.w (hd.area a) id
+  | .ok hd =>
+    if v.abs a && (hd.area a).isNone then ⟨h.w, .ok none⟩
+    else someRes (readFruArea cfg send v h.w (hd.area a) id)
   | e => ⟨h.w, castErr e⟩
 
 /-- The record-header walk of `get_fru_multirecord_area`; returns the accumulated `count`.
 `rid` is the FRU id the inner reads name. -/
-def mrWalk {σ} (cfg : Cfg) (send : Send σ) :
+def mrWalk {σ} (rangeFix : Bool) (cfg : Cfg) (send : Send σ) :
     Nat → World σ → (rid : Nat) → (offset : Option Nat) → (count : Nat) → Res σ Nat
   | 0, w, _, _, _ => ⟨w, .pyError "nontermination"⟩
   | fuel + 1, w, rid, offset, count =>
-    let r := readFruData cfg send w offset 5 rid
+    let r := readFruDataV rangeFix cfg send w offset (some 5) rid
     match r.out with
     | .ok data =>
       match data[1]?, data[2]? with
@@ -252,22 +316,25 @@ def mrWalk {σ} (cfg : Cfg) (send : Send σ) :
         | none => ⟨r.w, .pyError "TypeError"⟩
         | some off =>
           if b1 / 128 % 2 = 1 then ⟨r.w, .ok (count + len + 5)⟩
-          else mrWalk cfg send fuel r.w rid (some (off + len + 5)) (count + len + 5)
+          else mrWalk rangeFix cfg send fuel r.w rid (some (off + len + 5)) (count + len + 5)
       | _, _ => ⟨r.w, .pyError "IndexError"⟩
     | e => ⟨r.w, castErr e⟩
 
 def mrFuel : Nat := 20000
 
-/-- `get_fru_multirecord_area(fru_id)`: the bytes handed to `InventoryMultiRecordArea`. -/
-def getMultirecord {σ} (cfg : Cfg) (send : Send σ) (shipped : Bool) (w : World σ) (id : Nat) :
-    Res σ (List Nat) :=
-  let rid := if shipped then 0 else id
+/-- `get_fru_multirecord_area(fru_id)`: the bytes handed to `InventoryMultiRecordArea`; `none` = the getter
+returns `None` (`v.absM`: `if not header.multirecord_area_offset: return None`). -/
+def getMultirecord {σ} (cfg : Cfg) (send : Send σ) (v : Var) (w : World σ) (id : Nat) :
+    Res σ (Option (List Nat)) :=
+  let rid := if v.mrShipped then 0 else id
   let h := getHeader cfg send w id
   match h.out with
   | .ok hd =>
-    let c := mrWalk cfg send mrFuel h.w rid hd.multi 0
+    if v.absM && hd.multi.isNone then ⟨h.w, .ok none⟩
+    else
+    let c := mrWalk v.rangeFix cfg send mrFuel h.w rid hd.multi 0
     match c.out with
-    | .ok count => readFruData cfg send c.w hd.multi count rid
+    | .ok count => someRes (readFruDataV v.rangeFix cfg send c.w hd.multi (some count) rid)
     | e => ⟨c.w, castErr e⟩
   | e => ⟨h.w, castErr e⟩
 
@@ -279,32 +346,28 @@ structure Inventory where
   multi : Option (List Nat)
   deriving Repr, DecidableEq, Inhabited
 
-/-- `if header.x_offset: fru.x = self.get_fru_x_area(fru_id)` -/
-def optArea {σ} (present : Bool) (w : World σ) (f : World σ → Res σ (List Nat)) :
+/-- `if header.x_offset: fru.x = self.get_fru_x_area(fru_id)` (the attribute is `None` otherwise; the
+getter reads the header again and decides on its own reading) -/
+def optArea {σ} (present : Bool) (w : World σ) (f : World σ → Res σ (Option (List Nat))) :
     Res σ (Option (List Nat)) :=
-  if present then
-    let r := f w
-    match r.out with
-    | .ok d => ⟨r.w, .ok (some d)⟩
-    | e => ⟨r.w, castErr e⟩
-  else ⟨w, .ok none⟩
+  if present then f w else ⟨w, .ok none⟩
 
 /-- `get_fru_inventory(fru_id)`. -/
-def getInventory {σ} (cfg : Cfg) (send : Send σ) (shipped lenChk : Bool) (w : World σ) (id : Nat) :
+def getInventory {σ} (cfg : Cfg) (send : Send σ) (v : Var) (w : World σ) (id : Nat) :
     Res σ Inventory :=
   let h := getHeader cfg send w id
   match h.out with
   | .ok hd =>
-    let c := optArea hd.chassis.isSome h.w (fun w => getInfoArea cfg send lenChk w .chassis id)
+    let c := optArea hd.chassis.isSome h.w (fun w => getInfoArea cfg send v w .chassis id)
     match c.out with
     | .ok ch =>
-      let b := optArea hd.board.isSome c.w (fun w => getInfoArea cfg send lenChk w .board id)
+      let b := optArea hd.board.isSome c.w (fun w => getInfoArea cfg send v w .board id)
       match b.out with
       | .ok bo =>
-        let p := optArea hd.product.isSome b.w (fun w => getInfoArea cfg send lenChk w .product id)
+        let p := optArea hd.product.isSome b.w (fun w => getInfoArea cfg send v w .product id)
         match p.out with
         | .ok pr =>
-          let m := optArea hd.multi.isSome p.w (fun w => getMultirecord cfg send shipped w id)
+          let m := optArea hd.multi.isSome p.w (fun w => getMultirecord cfg send v w id)
           match m.out with
           | .ok mr => ⟨m.w, .ok ⟨ch, bo, pr, mr⟩⟩
           | e => ⟨m.w, castErr e⟩
